@@ -216,8 +216,11 @@ func (mv mapValue) PropertyValue(iv Value) Value {
 		return nilValue
 	}
 	var er reflect.Value
-	if ir.Type().AssignableTo(mr.Type().Key()) {
+	if kt := mr.Type().Key(); ir.Type().AssignableTo(kt) {
 		er = mr.MapIndex(ir)
+	} else if ir.Kind() == reflect.String && kt.Kind() == reflect.String {
+		// the key type is a named string type
+		er = mr.MapIndex(ir.Convert(kt))
 	}
 	switch {
 	case er.IsValid():
